@@ -78,6 +78,14 @@ func (f *Fixture) MkTx(st *state.StateDB, number *big.Int, op string) (*types.Tr
 			amt = new(big.Int).Set(cur.SelfToken)
 		}
 		return stk(v.Operator, staking.ValidatorWithDraw, &staking.TxValidatorWithdraw{MainAddress: v.Main, Recipient: v.Operator.Addr, Value: amt, Nonce: st.GetNonce(v.Operator.Addr)})
+	case "vwithdrawmost": // leave less than one stake unit behind
+		v := val()
+		cur := st.GetValidatorByMainAddr(v.Main)
+		amt := Unit(1, 0)
+		if cur != nil && cur.SelfToken.Cmp(Unit(0, 500000000000000000)) > 0 {
+			amt = new(big.Int).Sub(cur.SelfToken, Unit(0, 500000000000000000))
+		}
+		return stk(v.Operator, staking.ValidatorWithDraw, &staking.TxValidatorWithdraw{MainAddress: v.Main, Recipient: v.Operator.Addr, Value: amt, Nonce: st.GetNonce(v.Operator.Addr)})
 	case "vwithdrawmuch":
 		v := val()
 		return stk(v.Operator, staking.ValidatorWithDraw, &staking.TxValidatorWithdraw{MainAddress: v.Main, Recipient: v.Operator.Addr, Value: Unit(5000, 0), Nonce: st.GetNonce(v.Operator.Addr)})
